@@ -228,7 +228,10 @@ def evaluate(w):
     oc = w.outcome
     ok = oc is not None and oc[0] == 'ok'
     fired = [fr for fr in w.faults.fired if fr['exc'] is not None]
-    if not ok and not fired:
+    from .oracles import check_complete_args
+    n0 = len(w.violations)
+    check_complete_args(w)
+    if not ok and not fired and len(w.violations) == n0:
         # nothing was injected, so nothing may fail: a failure here is a bug of
         # the harness (or of the library) that must not pass silently
         import traceback
